@@ -177,6 +177,9 @@ class Emitter:
         if f == "path":
             name = ty.segs[-1]
             al = self.v.get("type_alias", {})
+            if "::".join(ty.segs) in al:
+                # a type alias keyed by the whole path (`colorchoice::ColorChoice` next to clap's `ColorChoice`)
+                return al["::".join(ty.segs)]
             if name in al:
                 return al[name]
             if name in INT_NAMES:
@@ -184,6 +187,8 @@ class Emitter:
             if name == "bool":
                 return BOOL
             if name == "Self" and self.self_struct:
+                if self.self_struct not in self.v.get("structs", {}) and self.self_struct in self.v.get("enums", {}):
+                    return ("enum", self.self_struct)      # `impl <enum>`
                 return ("struct", self.self_struct)
             if name == "Option" and ty.args:
                 return ("opt", self.ty_of_ast(ty.args[0]))
@@ -375,6 +380,10 @@ class Emitter:
 
     def e_path(self, e, env, k):
         segs = e.segs
+        full = self.v.get("paths", {}).get("::".join(segs))
+        if full is not None:
+            # optional vocabulary key `paths: {whole path: (term, type)}` (wins over the last-two-segments lookup)
+            return k(full[0], full[1], env)
         if len(segs) == 1:
             v = env.get(segs[0])
             if v is not None:
@@ -428,6 +437,10 @@ class Emitter:
             def k1(t, ty, env1):
                 if ty == BOOL:
                     return k("(negb %s)" % t, BOOL, env1)
+                if is_int(ty) and not is_signed(ty) and ty[1] in WIDTH:
+                    # `!x` on an unsigned integer: complement at the width of the type
+                    # (`a & !b` reads N.land a (N.lnot b w), which is N.ldiff a b for a < 2^w)
+                    return k("(N.lnot %s %d)" % (t, WIDTH[ty[1]]), ty, env1)
                 raise EmitError("bitwise not on %r" % (ty,))
             return self.expr(e.e, env, k1)
         if e.op == "-":
@@ -582,6 +595,9 @@ class Emitter:
         raise EmitError("no decidable equality known for %r" % (ty,))
 
     def arith(self, op, a, b, ty, env, k):
+        if ty == BOOL and op in ("|", "&", "^"):
+            # `a | b` on bool: both operands are evaluated (no short circuit), which they have been here
+            return k({"|": "(%s || %s)", "&": "(%s && %s)", "^": "(xorb %s %s)"}[op] % (a, b), BOOL, env)
         if not is_int(ty):
             if op == "|" and ty[0] == "struct":
                 bo = self.v["structs"][ty[1]].get("bitor")
@@ -618,6 +634,10 @@ class Emitter:
             return k("(N.lxor %s %s)" % (a, b), ty, env)
         if op == ">>":
             return k("(N.shiftr %s %s)" % (a, b), ty, env)
+        if op == "<<" and self.v.get("checked_shl") and w in WIDTH:
+            # optional vocabulary key `checked_shl`: name of  w a i |-> option N  (None = the shift amount
+            # is not below the width: a debug build panics)
+            return self.bind("%s %d %s %s" % (self.v["checked_shl"], WIDTH[w], a, b), ty, env, k, hint="sh")
         if op == "<<":
             wd = WIDTH.get(w)
             return k("(N.shiftl %s %s mod %d)" % (a, b, 2 ** wd), ty, env)
@@ -700,8 +720,28 @@ class Emitter:
             return self.expr(e.rhs, env, lambda t, ty, env1: self.write_place(e.lhs, t, env1, lambda env2: k("tt", UNIT, env2)),
                              ) if e.rhs.kind != "int" else self.assign_lit(e, env, k)
         bop = e.op[:-1]
+        oa = self.op_assign_shape(e, env)
+        if oa is not None:
+            # optional struct key `op_assign: {"|=": <key of a translated `&mut self` fn>}`: the operator trait's
+            # method (BitOrAssign::bitor_assign ..) is called on the place
+            return self.call_shape(oa, e.lhs, [e.rhs], env, k)
         return self.expr(N("binary", op=bop, l=e.lhs, r=e.rhs), env,
                          lambda t, ty, env1: self.write_place(e.lhs, t, env1, lambda env2: k("tt", UNIT, env2)))
+
+    def op_assign_shape(self, e, env):
+        """shape of the translated operator-assignment method when the place is a vocabulary struct that names one"""
+        if not any("op_assign" in st for st in self.v.get("structs", {}).values()):
+            return None
+        pr = self.try_pure(e.lhs, env)
+        if pr is None or pr[1][0] != "struct":
+            return None
+        key = self.v["structs"][pr[1][1]].get("op_assign", {}).get(e.op)
+        if key is None:
+            return None
+        shape = self.fn_shapes.get(key)
+        if shape is None:
+            raise EmitError("operator %s on %s: %s is not translated (yet)" % (e.op, pr[1][1], key))
+        return shape
 
     def assign_lit(self, e, env, k):
         # the literal adopts the type of the place
@@ -847,6 +887,31 @@ class Emitter:
             return None
         return " && ".join(tests)
 
+    def cfg_static(self, attrs):
+        """optional vocabulary key `cfg_static: {"windows": False, ..}`: the value of the #[cfg(..)] attributes when
+        every predicate in them is decided by the vocabulary (the code is translated for ONE configuration:
+        a block that is compiled out is skipped, one that is compiled in is an ordinary statement), else None"""
+        import re
+        tab = self.v.get("cfg_static")
+        if not tab:
+            return None
+        val = None
+        for a in attrs:
+            m = re.match(r'#\[cfg\((.*)\)\]$', a.replace(" ", ""))
+            if not m:
+                continue
+            c = m.group(1)
+            neg = False
+            mm = re.match(r"not\((.*)\)$", c)
+            if mm:
+                neg = True
+                c = mm.group(1)
+            if c not in tab:
+                return None
+            b = bool(tab[c]) != neg
+            val = b if val is None else (val and b)
+        return val
+
     def stmts(self, stmts, i, tail, env, k):
         if i == len(stmts):
             if tail is None:
@@ -854,6 +919,21 @@ class Emitter:
             return self.expr(tail, env, k)
         s = stmts[i]
         rest = lambda env1: self.stmts(stmts, i + 1, tail, env1, k)
+        if s.kind in ("expr", "let") and getattr(s, "attrs", None):
+            cs = self.cfg_static(s.attrs)
+            if cs is False:
+                return rest(env)
+            if cs is True:
+                plain = [a for a in s.attrs if not a.replace(" ", "").startswith("#[cfg")]
+                if s.kind == "expr" and not s.semi and tail is None and all(
+                        x.kind == "expr" and getattr(x, "attrs", None) and self.cfg_static(x.attrs) is False for x in stmts[i + 1:]):
+                    # `#[cfg(a)] { .. } #[cfg(not(a))] { .. }` at the end of a block: the block that is compiled
+                    # in is the value of the enclosing block
+                    return self.expr(s.e, env, k)
+                s2 = N(s.kind)
+                s2.__dict__.update(s.__dict__)
+                s2.attrs = plain
+                s = s2
         if s.kind == "item":
             it = s.item
             if it.kind == "const":
@@ -1118,6 +1198,36 @@ class Emitter:
             return False
         return any(has_ctor(p) for p, _g, _b in arms)
 
+    def nested_nonnative(self, t):
+        """an enum with `native: False` below an Option / tuple"""
+        if t[0] == "opt":
+            return self.nonnative(t[1]) or self.nested_nonnative(t[1])
+        if t[0] == "tuple":
+            return any(self.nonnative(x) or self.nested_nonnative(x) for x in t[1])
+        return False
+
+    def pat_names_nonnative(self, p, ty):
+        """the pattern names a variant of a `native: False` enum below a constructor"""
+        while p.kind == "pref":
+            p = p.inner
+        if p.kind == "ppath":
+            return self.nonnative(ty)
+        if p.kind == "por":
+            return any(self.pat_names_nonnative(x, ty) for x in p.alts)
+        if p.kind == "ptuple":
+            tys = ty[1] if ty[0] == "tuple" and len(ty[1]) == len(p.elems) else [UNKNOWN] * len(p.elems)
+            return any(self.pat_names_nonnative(x, t) for x, t in zip(p.elems, tys))
+        if p.kind == "ptstruct":
+            ep = self.enum_payload(p)
+            if ep is not None:
+                return any(self.pat_names_nonnative(x, t) for x, t in zip(p.elems, ep[1]))
+            inner = ty[1] if ty[0] == "opt" else UNKNOWN
+            return any(self.pat_names_nonnative(x, inner) for x in p.elems)
+        return False
+
+    def nonnative(self, t):
+        return t[0] == "enum" and self.v["enums"][t[1]].get("native", True) is False
+
     def hybrid_pat(self, p, ty, binds, tests, term=None):
         """Gallina pattern for p (variables for literals, tested afterwards); `term` is given for a
         top-level component, whose plain identifier pattern binds the scrutinee itself"""
@@ -1141,8 +1251,20 @@ class Emitter:
             n = self.fresh("x")
             tests.append(self.pat_test(p, n, ty, []))
             return n
+        if (k == "ppath" or (k == "por" and all(x.kind == "ppath" for x in p.alts))) and self.nonnative(ty):
+            # variant(s) of an enum the model represents by a number: tested like a literal
+            if term is not None:
+                tests.append(self.pat_test(p, term, ty, []))
+                return "_"
+            n = self.fresh("x")
+            tests.append(self.pat_test(p, n, ty, []))
+            return n
         if k == "ppath":
             return self.coq_pattern(p, ty, binds)
+        if k == "ptstruct" and self.enum_payload(p) is not None and term is None:
+            # data-carrying variant of a native vocabulary enum (`Some(Color::Ansi(c))`)
+            ctor, ptys = self.enum_payload(p)
+            return "(%s %s)" % (ctor, " ".join(self.hybrid_pat(x, t, binds, tests) for x, t in zip(p.elems, ptys)))
         if k == "ptstruct":
             name = p.segs[-1]
             if name not in ("Some", "Ok", "Err") or len(p.elems) != 1:
@@ -1226,6 +1348,12 @@ class Emitter:
                         native = False
             if any(t[0] == "enum" and self.v["enums"][t[1]].get("native", True) is False for t in tys):
                 native = False
+            if native and any(self.nested_nonnative(t) for t in tys):
+                # `Some(<variant of an enum the model represents by a number>)`: constructor-and-literal match
+                for p, _g, _b in e.arms:
+                    ps = p.elems if (len(comps) > 1 and p.kind == "ptuple") else [p]
+                    if len(ps) == len(tys) and any(self.pat_names_nonnative(x, t) for x, t in zip(ps, tys)):
+                        native = False
             if native and not all(is_int(t) for t in tys):
                 def build(kk):
                     out = ["match %s with" % ", ".join(terms)]
@@ -1342,6 +1470,14 @@ class Emitter:
         """call a translated / vocabulary function described by `shape`:
         dict(coq, self: None|'in'|'inout', params: [('in'|'inout', ty)], ret, total, cfg)"""
         nparams = shape["params"]
+        if shape.get("statics"):
+            for sname, _m, _t in shape["statics"]:
+                if env.get(sname) is None:
+                    raise EmitError("call of %s, which uses the static %s: the caller does not declare it (vocabulary static_use)" % (shape["coq"], sname))
+                if _m == "inout" and env.get(sname).mut != "ref":
+                    raise EmitError("call of %s, which writes the static %s: the caller declares it read-only (vocabulary static_use)" % (shape["coq"], sname))
+            nparams = [(m, t) for _n, m, t in shape["statics"]] + list(nparams)
+            args = [N("path", segs=[n]) for n, _m, _t in shape["statics"]] + list(args)
         if len(args) != len(nparams):
             raise EmitError("call of %s with %d arguments, expected %d" % (shape["coq"], len(args), len(nparams)))
         places = []
@@ -1613,6 +1749,11 @@ class Emitter:
                     for a in x.args:
                         if a.kind == "path" and len(a.segs) == 1 and a.segs[0] in env.vars and env.vars[a.segs[0]].mut == "ref":
                             add(a.segs[0])
+                elif x.kind == "macro" and self.v.get("macro_writes"):
+                    # optional vocabulary key `macro_writes`: callable(em, macro node) -> names of the variables the
+                    # macro call assigns (`write!(f, ..)`: f); macro arguments are tokens, not AST
+                    for n in self.v["macro_writes"](self, x):
+                        add(n)
                 elif x.kind == "call":
                     # a `&mut` variable passed on by name
                     for a in x.args:
@@ -1748,7 +1889,10 @@ class Emitter:
             old = self.ctl
             oldpm = self.pure_mode
             self.pure_mode = 0
-            self.ctl = Ctl((lambda envx, t, ty: "Some (LRet %s)" % t) if ret else old.ret,
+            # optional vocabulary key `for_ret_state`: a `return` inside the loop carries the loop variables
+            # (as `loop_ret_state` does for while loops); without it they keep their values from before the loop
+            rs = bool(self.v.get("for_ret_state"))
+            self.ctl = Ctl(((lambda envx, t, ty: "Some (LRet (%s, %s))" % (tup(envx), t)) if rs else (lambda envx, t, ty: "Some (LRet %s)" % t)) if ret else old.ret,
                            lambda envx: "Some (%s %s)" % (brk, tup(envx)), lambda envx: "Some (%s %s)" % (nxt, tup(envx)))
             if not ret:
                 # a `return` cannot occur (has_return is false)
@@ -1768,6 +1912,11 @@ class Emitter:
             v = self.fresh("rv")
             if self.pure_mode:
                 raise NeedsBind()
+            if rs:
+                s3 = self.fresh("st")
+                return "%s <- for_list %s %s %s ;;\nmatch %s with\n| inl %s =>\n%s\n| inr (%s, %s) =>\n%s\nend" % (
+                    r, fterm, lst, init, r, s2, ind(self.unpack_state(st, s2, env1, lambda env4: k("tt", UNIT, env4)), 4),
+                    s3, v, ind(self.unpack_state(st, s3, env1, lambda env4: self.ctl.ret(env4, v, UNKNOWN)), 4))
             return "%s <- for_list %s %s %s ;;\nmatch %s with\n| inl %s =>\n%s\n| inr %s =>\n%s\nend" % (
                 r, fterm, lst, init, r, s2, ind(self.unpack_state(st, s2, env1, lambda env4: k("tt", UNIT, env4)), 4),
                 v, ind(self.ctl.ret(env1, v, UNKNOWN), 4))
@@ -1958,9 +2107,22 @@ class Emitter:
             mode = "inout" if (ty.form == "ref" and ty.mut) else "in"
             params.append((mode, self.param_type(pat, ty)))
         ret = self.ty_of_ast(fn.ret)
+        # optional vocabulary key `ret_types: {fn: type}`: a return type the AST does not determine (`impl Iterator<..>`)
+        ret = self.v.get("ret_types", {}).get((struct + "::" if struct else "") + fn.name, ret)
         sk = fn.self_kind
-        return {"coq": coq_name or ("g_" + fn.name), "self": ("inout" if sk == "refmut" else ("in" if sk else None)),
-                "params": params, "ret": ret, "total": False, "cfg": bool(self.v.get("config_param")), "struct": struct}
+        key = (struct + "::" if struct else "") + fn.name
+        # optional vocabulary key `interior_mut: [fn key]`: a `&self` method that writes through interior
+        # mutability (an atomic store) is translated like `&mut self` (the new value of self is returned)
+        inout = sk == "refmut" or (sk and key in self.v.get("interior_mut", ()))
+        shape = {"coq": coq_name or ("g_" + fn.name), "self": ("inout" if inout else ("in" if sk else None)),
+                 "params": params, "ret": ret, "total": False, "cfg": bool(self.v.get("config_param")), "struct": struct}
+        # optional vocabulary keys `statics: {NAME: type}` and `static_use: {fn key: [(NAME, "in" | "inout")]}`:
+        # a `static` the function (or a callee) reads / writes is an extra leading parameter, threaded like a
+        # `&mut` parameter when "inout"; a caller passes its own variable of the same name
+        su = self.v.get("static_use", {}).get(key)
+        if su:
+            shape["statics"] = [(n, m, self.v["statics"][n]) for n, m in su]
+        return shape
 
     def param_type(self, pat, ty):
         if pat.kind == "pident":
@@ -1969,8 +2131,10 @@ class Emitter:
                 return st
         return self.ty_of_ast(ty)
 
-    def emit_fn(self, fn, struct=None, coq_name=None, force_monadic=False):
-        """returns (Gallina definition text, shape)"""
+    def emit_fn(self, fn, struct=None, coq_name=None, force_monadic=False, rec_fuel=None):
+        """returns (Gallina definition text, shape).
+        rec_fuel (a Gallina nat term): the function calls itself; it is emitted as a Fixpoint `<name>_rec` over a
+        fuel argument (out of fuel = None, like the loops) and `<name>` = `<name>_rec <rec_fuel>`"""
         self.counter = {}
         for reserved in self.reserved:
             self.counter[reserved] = 1
@@ -1993,6 +2157,12 @@ class Emitter:
             binders.append("(%s : %s)" % (sn, self.coq_ty(sty)))
             if shape["self"] == "inout":
                 outs.append("self")
+        for sname, smode, sty in shape.get("statics", ()):
+            n = self.fresh(sname)
+            env = env.bind(sname, n, sty, "ref" if smode == "inout" else False)
+            binders.append("(%s : %s)" % (n, self.coq_ty(sty)))
+            if smode == "inout":
+                outs.append(sname)
         for (pat, ty), (mode, pty) in zip(fn.params, shape["params"]):
             p = pat
             while p.kind == "pref":
@@ -2010,6 +2180,10 @@ class Emitter:
                 outs.append(p.name)
         ret = shape["ret"]
         self.monadic = False
+        if rec_fuel is not None:
+            force_monadic = True
+            self.counter["rec_fuel"] = 1
+            self.fn_shapes[self.cur_fn] = dict(shape, coq="%s_rec rec_fuel'" % shape["coq"], total=False)
 
         def finish(envx, t, ty):
             parts = [envx.by_decl(n, env.get(n).decl).coq for n in outs]
@@ -2019,8 +2193,8 @@ class Emitter:
             return "\x02RET(%s)\x02" % val
         self.ctl = Ctl(finish)
         body = self.expr(fn.body, env, lambda t, ty, envx: finish(envx, t, ty))
-        total = not force_monadic and ("<-" not in body and "None" not in self._strip_ret(body))
         import re
+        total = not force_monadic and ("<-" not in body and not re.search(r"(?<![A-Za-z0-9_])None(?![A-Za-z0-9_])", self._strip_ret(body)))
         if total:
             body = re.sub(r"\x02RET\((.*?)\)\x02", lambda m: m.group(1), body, flags=re.S)
         else:
@@ -2034,6 +2208,12 @@ class Emitter:
             rty = "(" + rty + ")"
         if not total:
             rty = "option " + rty
+        if rec_fuel is not None:
+            names = [re.match(r"\((\S+) :", b).group(1) for b in binders]
+            text = ("Fixpoint %s_rec (rec_fuel : nat) %s {struct rec_fuel} : %s :=\n  match rec_fuel with\n  | O => None\n  | S rec_fuel' =>\n%s\n  end.\n\n"
+                    "Definition %s %s : %s :=\n  %s_rec %s %s."
+                    % (shape["coq"], " ".join(binders), rty, ind(body, 4), shape["coq"], " ".join(binders), rty, shape["coq"], rec_fuel, " ".join(names)))
+            return text, shape
         text = "Definition %s %s : %s :=\n%s." % (shape["coq"], " ".join(binders), rty, ind(body))
         return text, shape
 
